@@ -523,6 +523,50 @@ Proof.
   destruct id; rewrite ?le_length; cbn [length]; vm_compute; discriminate.
 Qed.
 
+(** the hello message has a fixed length, the one the source states *)
+Theorem hello_length v c bs : enc (Hello v c) = Some bs -> len bs = HELLO_MSG_LENGTH.
+Proof.
+  cbn [enc]. intros [= <-]. unfold len, enc_cfg. cbn [length app]. rewrite !app_length, !le_length. reflexivity.
+Qed.
+
+Lemma enc_ports_length ps : length (enc_ports ps) = (4 * length ps)%nat.
+Proof. induction ps as [|p r IH]; [reflexivity|]. cbn [enc_ports length]. rewrite app_length, le_length, IH. lia. Qed.
+Lemma enc_ports_ids_length ps : forall is, length ps = length is -> length (enc_ports_ids ps is) = (8 * length ps)%nat.
+Proof.
+  induction ps as [|p r IH]; intros [|i ri] Hl; try discriminate; [reflexivity|].
+  cbn [enc_ports_ids length]. rewrite !app_length, !le_length, IH by (cbn [length] in Hl; lia). lia.
+Qed.
+
+(** what a peer may send to an endpoint that announced [chunk]: any message, with port batches limited
+    to [chunk / 4] ports (the dispatcher rejects larger ones) *)
+Definition admissible (chunk : N) (m : msg) : bool :=
+  match m with PortData _ _ _ _ ports _ => 4 * len ports <=? chunk | _ => true end.
+
+(** every admissible message that can be length-prefixed at all -- and every payload frame, which has at most
+    [chunk] bytes -- fits the frame length the endpoint accepts on a stream transport *)
+Theorem frames_fit chunk L m bs :
+  max_frame_length chunk = Some L -> admissible chunk m = true -> enc m = Some bs -> u32 (len bs) = true ->
+  len bs <= L /\ chunk <= L.
+Proof.
+  unfold max_frame_length. destruct (u32 (MAX_MSG_LENGTH + chunk)) eqn:Hu; [|discriminate]. intros [= <-] Ha He H32.
+  unfold u32 in H32. apply N.ltb_lt in H32.
+  assert (HM : MAX_MSG_LENGTH = 16) by reflexivity. assert (HH : HELLO_MSG_LENGTH = 26) by reflexivity.
+  unfold u32 in Hu. apply N.ltb_lt in Hu. unfold sat32.
+  destruct (fixed_size m) eqn:Hf.
+  - pose proof (fixed_msg_length _ _ Hf He). lia.
+  - destruct m as [|v c| |p w id|c s|c np|p f l|p f l w ports ids|p c|p|p|p| | |]; try discriminate.
+    + apply hello_length in He. lia.
+    + cbn [admissible] in Ha. apply N.leb_le in Ha. cbn [enc] in He.
+      destruct ids as [ids|].
+      * destruct (Nat.eqb_spec (length ports) (length ids)) as [Hl|]; [|discriminate].
+        injection He as <-. unfold len in *. cbn [length app] in *.
+        rewrite ?app_length, ?le_length in *. rewrite enc_ports_ids_length in * by assumption.
+        cbn [length] in *. lia.
+      * injection He as <-. unfold len in *. cbn [length app] in *.
+        rewrite ?app_length, ?le_length, ?enc_ports_length in *.
+        cbn [length] in *. lia.
+Qed.
+
 (** handshake bytes are the version-3 handshake *)
 Theorem handshake_layout c : exact_cfg c = true -> handshake c = map Some (Spec3.handshake3 c).
 Proof.
